@@ -83,6 +83,38 @@ def _check_fq_pair(rep, curve):
             require(rep, r, "FQ %s: %s agrees in ref and opt" % (curve, nm), pth.decisions, rp)
     core.explore(run_cmp, ctx_kwargs=dict(mul="uf"), on_path=on_cmp)
 
+    # comparisons with an ARBITRARY integer (negative, >= p): no value is prescribed (C08 / C14 leave the meaning of
+    # FQ(a) == k for unreduced k open), only that the two implementations answer alike
+    def run_cmp_int(ctx):
+        a = SymZ.var("a", 0, p - 1)
+        k = SymZ.var("k")
+        out = []
+        for K in (RK, OK):
+            x = K(a)
+            res = []
+            for f_ in (lambda: x == k, lambda: x != k, lambda: x < k, lambda: x > k, lambda: x <= k, lambda: x >= k):
+                try:
+                    res.append(f_())
+                except TypeError:
+                    res.append("TypeError")
+            out.append(res)
+        return out
+
+    def on_cmp_int(pth):
+        rep.paths += 1
+        rpi = {"kind": "c14_diff", "args": {"curve": curve, "kind": "FQ", "unreduced_int": True}}
+        if pth.kind != "ret":
+            rep.fail("FQ %s comparison with an int raised %r" % (curve, pth.value), rpi)
+            return
+        r1, r2 = pth.value
+        for nm, u, v in zip(("== k", "!= k", "< k", "> k", "<= k", ">= k"), r1, r2):
+            if isinstance(u, str) or isinstance(v, str):
+                require(rep, u == v, "FQ %s: x %s raises in both implementations or in neither" % (curve, nm), pth.decisions, rpi)
+                continue
+            r, m = pth.ctx.prove(core.as_bool_term(u) == core.as_bool_term(v))
+            require(rep, r, "FQ %s: x %s for EVERY integer k (negative, >= p included) agrees in ref and opt" % (curve, nm), pth.decisions, rpi)
+    core.explore(run_cmp_int, ctx_kwargs=dict(mul="uf"), on_path=on_cmp_int)
+
 
 for _c in CURVES:
     def _mk(c):
